@@ -15,8 +15,10 @@ import errno
 import fnmatch
 import itertools
 import os
+import random
 import shutil
 import tempfile
+import time
 
 from harness.common import extract
 from harness.common.extract import NotRecognised
@@ -828,6 +830,29 @@ class Impl:
                 return plain()
         return [self.guarded(call, fn)]
 
+    def sweep(self, call, blocks, zombie=False):
+        """`call` (cmdline / environ) of ONE Process object on every file content of `blocks`: only the file is
+        rewritten between the calls (the real front end + platform method + open_text on a real file)"""
+        proc = self.new_process()
+        w = default_world()
+        w["zombie"] = zombie
+        self.materialise(w)
+        path = self.fp.path("%d/%s" % (PID, call))
+        outs = []
+        fn = getattr(proc, call)
+        fd = os.open(path, os.O_WRONLY | os.O_CREAT)
+        try:
+            size = None
+            for b in blocks:
+                if len(b) != size:                     # (truncation is the slow part: the blocks come by length)
+                    size = len(b)
+                    os.ftruncate(fd, size)
+                os.pwrite(fd, b, 0)
+                outs.append(canon(self.guarded(call, fn)))
+        finally:
+            os.close(fd)
+        return outs
+
     def run_case(self, case):
         """outcomes aligned with atoms_of(case) (shorter when process_iter did not yield the object)"""
         self.proc, outs = self.get_object(case)
@@ -927,6 +952,98 @@ def gen_title(rng):
     t = b" ".join(words)
     t += rng.choice([b"", b"", b" ", b"  ", b"\0", b" \0", b"\0\0"])
     return t or b"x"
+
+
+PAGE = 4096
+
+
+def kernel_cmdline(arg_area, env_area, kernel="new"):
+    """the bytes of /proc/<pid>/cmdline given the memory of the argument area [arg_start, arg_end) and of the
+    environment area that follows it (fs/proc/base.c).
+    new = get_mm_cmdline (Linux >= 4.2, semantics of 5.3+): the argument area as it is, of any length — unless its
+          last byte is not NUL (setproctitle overwrote it): then the C string at arg_start, running on into the
+          environment area, its NUL included;
+    old = proc_pid_cmdline (Linux < 4.2): at most one page; the setproctitle case (only when the area is shorter
+          than a page) is cut at the first NUL, which is NOT included"""
+    if kernel == "new":
+        if not arg_area or arg_area.endswith(b"\0"):
+            return arg_area
+        allb = arg_area + env_area
+        i = allb.find(b"\0")
+        return allb if i < 0 else allb[:i + 1]
+    buf = arg_area[:PAGE]
+    if buf and not buf.endswith(b"\0") and len(arg_area) < PAGE:
+        i = buf.find(b"\0")
+        if i >= 0:
+            return buf[:i]
+        buf = buf + env_area[:PAGE - len(buf)]
+        i = buf.find(b"\0")
+        return buf if i < 0 else buf[:i]
+    return buf
+
+
+TITLES = {
+    "nginx": ([b"/usr/sbin/nginx", b"-g", b"daemon off;"],
+              [b"nginx: master process /usr/sbin/nginx -g daemon off;", b"nginx: worker process",
+               b"nginx: cache manager process", b"nginx: worker process is shutting down"]),
+    "sshd": ([b"/usr/sbin/sshd", b"-D", b"-R"],
+             [b"sshd: user@pts/0", b"sshd: user [priv]", b"sshd: user@notty",
+              b"sshd: /usr/sbin/sshd -D [listener] 0 of 10-100 startups"]),
+    "postgres": ([b"/usr/lib/postgresql/14/bin/postgres", b"-D", b"/var/lib/postgresql/14/main", b"-c",
+                  b"config_file=/etc/postgresql/14/main/postgresql.conf"],
+                 [b"postgres: 14/main: checkpointer ", b"postgres: 14/main: walwriter ",
+                  b"postgres: 14/main: alice mydb 10.0.0.5(51234) idle", b"postgres: alice mydb [local] SELECT waiting",
+                  b"postgres: 14/main: logical replication launcher "]),
+    "python": ([b"/usr/bin/python3", b"app.py", b"--workers", b"4"],
+               [b"gunicorn: master [app]", b"gunicorn: worker [app]", "python: t\u00e2che \u21161".encode(), b"w",
+                b"celery worker -A proj"]),
+    "sh": ([b"sh"], [b"(sd-pam)", b"php-fpm: pool www", b"avahi-daemon: running [host.local]", b"x y"]),
+}
+ENV_AREAS = [b"", b"LANG=C\0", b"LANG=C\0PATH=/usr/local/sbin:/usr/local/bin:/usr/sbin:/usr/bin\0HOME=/root\0",
+             b"INVOCATION_ID=0123456789abcdef0123456789abcdef\0JOURNAL_STREAM=8:12345\0" + b"X=" + b"y" * 300 + b"\0"]
+TITLE_STYLES = ["pad_all", "pad_all", "pad_argv", "strcpy", "space_pad", "prctl", "prctl_nul"]
+
+
+def proctitle_memory(rng, prog=None, style=None, title=None):
+    """(argument area, environment area, comm, description) after a process rewrote its title the way real
+    programs do"""
+    prog = prog or rng.choice(sorted(TITLES))
+    argv, titles = TITLES[prog]
+    title = title if title is not None else rng.choice(titles)
+    style = style or rng.choice(TITLE_STYLES)
+    arg = render_argv(argv)
+    env = rng.choice(ENV_AREAS)
+    a, n = len(arg), len(arg) + len(env)
+    comm = argv[0].split(b"/")[-1][:15]
+    if style == "pad_all":        # nginx, sshd, postgres, python-setproctitle: environ moved away, the whole of
+        t = title[:n - 1]         # [argv[0], end of environ) is the buffer, the rest is padded with NUL
+        mem = t + b"\0" * (n - len(t))
+    elif style == "pad_argv":     # only the argument area is reused
+        t = title[:a - 1]
+        mem = t + b"\0" * (a - len(t)) + env
+    elif style == "space_pad":    # SPT_PADCHAR ' ' / sendmail style: blanks up to the final NUL
+        t = title[:a - 1]
+        mem = t + b" " * (a - 1 - len(t)) + b"\0" + env
+    elif style == "strcpy":       # strcpy(argv[0], title): what was there before stays behind the NUL
+        t = title[:n - 1]
+        mem = t + b"\0" + (arg + env)[len(t) + 1:]
+    else:                         # prctl(PR_SET_MM_ARG_START/END) to a fresh buffer, with or without the NUL
+        mem_arg = title + (b"\0" if style == "prctl_nul" else b"")
+        return mem_arg, env, comm, "%s/%s" % (prog, style)
+    return mem[:a], mem[a:], comm, "%s/%s" % (prog, style)
+
+
+def gen_long_argv(rng):
+    """an argument vector whose layout exceeds one page (and sometimes open_text's 32 KiB buffer)"""
+    total = rng.choice([PAGE - 3, PAGE, PAGE + 1, PAGE + 200, 2 * PAGE + 17, 40000])
+    argv = [b"/usr/bin/java"]
+    size = len(argv[0]) + 1
+    while size < total:
+        a = rng.choice([b"-Dkey=" + b"v" * rng.randrange(1, 200), b"", b"--flag", b"file name with spaces.txt",
+                        E_ACUTE * rng.randrange(1, 40), b"x" * rng.randrange(1, 600)])
+        argv.append(a)
+        size += len(a) + 1
+    return argv
 
 
 def gen_cmdline_bytes(rng, fam):
@@ -1034,7 +1151,7 @@ def gen_name_pair(rng):
 
 
 FAMILIES = ["argv", "title", "mixed", "empty", "environ", "link", "exe_fallback", "exe_cache", "name",
-            "tree", "anything", "exe_denied", "name_err", "zombie_id", "oneshot_reuse"]
+            "tree", "anything", "exe_denied", "name_err", "zombie_id", "oneshot_reuse", "proctitle", "environ_kernel"]
 
 UIDS = [0, 1000, 1001, 65534, 12345, 4294967294]
 TTY_NRS = [0, 34816, 34817, 1025, 1088, 99999]
@@ -1258,6 +1375,60 @@ def gen_case(rng, fam, impl=None):
         calls = ["username", "terminal", "cwd", "name", "exe", "cmdline", "environ"]
         rng.shuffle(calls)
         steps = [{"call": c, "w": w} for c in calls[:rng.randrange(2, 8)]]
+    elif fam == "proctitle":
+        # what the kernel exposes after a real program rewrote its title / for an argv longer than a page
+        r = rng.random()
+        if r < 0.75:
+            arg, env, comm, _ = proctitle_memory(rng)
+            data = kernel_cmdline(arg, env, rng.choice(["new", "new", "old"]))
+        else:
+            argv = gen_long_argv(rng)
+            arg, comm = render_argv(argv), b"java"
+            data = kernel_cmdline(arg, b"LANG=C\0", rng.choice(["new", "old", "old"]))
+        w["cmdline"] = ("data", data)
+        w["comm"] = comm
+        w["zombie"] = rng.random() < 0.05
+        if rng.random() < 0.5:
+            w["exe"] = ("err", rng.choice(["ENOENT", "EACCES"]))
+        first = data.split(b"\0")[0]
+        for p in {first, first.split(b" ")[0]}:
+            if len(p) < 200:
+                gen_fs_for(rng, p, w["fs"])
+        steps = [{"call": "cmdline", "w": w}, {"call": "name", "w": w}, {"call": "exe", "w": w}]
+    elif fam == "environ_kernel":
+        # realistic environments as the kernel lays them out: longer than a page, cut at 4096 bytes (old kernels)
+        # or anywhere, values with newlines (exported shell functions), `=x` entries, duplicates
+        pool = [(b"PATH", b"/usr/local/sbin:/usr/local/bin:/usr/sbin:/usr/bin:/sbin:/bin"), (b"HOME", b"/home/alice"),
+                (b"LANG", b"en_US.UTF-8"), (b"BASH_FUNC_greet%%", b"() {  echo hi\n echo there\n}"),
+                (b"PS1", b"\\u@\\h:\\w\\$ "), (b"MULTI", b"line1\nline2\n"), (b"EMPTY", b""), (b"EQ", b"a=b=c"),
+                (b"LS_COLORS", b"rs=0:di=01;34:" * rng.randrange(1, 120)), (b"PATH", b"/opt/bin"), (b"HOME", b"/root"),
+                (E_ACUTE + b"_VAR", b"\xff\xfe"), (b"NL\nNAME", b"v"), (b"TERM", b"xterm-256color")]
+        n = rng.choice([1, 3, 6, 10, 14, 30])
+        entries = []
+        for _ in range(n):
+            k, v = rng.choice(pool)
+            q = rng.random()
+            if q < 0.8:
+                entries.append(k + b"=" + v)
+            elif q < 0.88:
+                entries.append(b"=" + v)               # empty NAME
+            elif q < 0.94:
+                entries.append(k)                      # no '='
+            else:
+                entries.append(b"=")
+        blk = b"".join(e + b"\0" for e in entries)
+        q = rng.random()
+        if q < 0.3:
+            if len(blk) < PAGE:                        # make it longer than a page, then cut like an old kernel
+                blk += (b"FILL=" + b"z" * 700 + b"\0") * 7
+            blk = blk[:PAGE]
+        elif q < 0.5 and blk:
+            blk = blk[:rng.randrange(0, len(blk) + 1)]  # cut anywhere
+        elif q < 0.6:
+            blk += b"\0" + b"GARBAGE=after-the-end\0"
+        w["environ"] = ("data", blk)
+        w["zombie"] = rng.random() < 0.05
+        steps = [{"call": "environ", "w": w}]
     elif fam == "oneshot_reuse":
         # the block-cached calls, several times on one object, the world changing between the steps
         for _ in range(rng.randrange(2, 5)):
@@ -1408,6 +1579,59 @@ def exhaustive_name_cases():
     return cases
 
 
+def small_blocks(alphabet, maxlen):
+    """every byte string over `alphabet` of length 0..maxlen"""
+    for n in range(maxlen + 1):
+        for t in itertools.product(alphabet, repeat=n):
+            yield bytes(t)
+
+
+# (call, alphabet, maximal length, zombie?)
+SWEEPS = [("environ", b"A=\0\n", 7, False), ("cmdline", b"a \0", 8, False), ("cmdline", b"a \0", 4, True)]
+
+
+def run_sweeps(ctx, impl, res):
+    """the exhaustive small enumerations: every file content over a small alphabet, on the real code path
+    (one Process object, the file rewritten between the calls) against model and specification"""
+    done = []
+    for call, alphabet, maxlen, zombie in SWEEPS:
+        blocks = list(small_blocks(alphabet, maxlen))
+        lines = [{"op": "many", "call": call, "zombie": zombie, "blocks": [hx(b) for b in blocks[a:a + 1000]]}
+                 for a in range(0, len(blocks), 1000)]
+        outs = []
+        for o in ctx.driver().batch(lines):
+            if "bad" in o:
+                raise RuntimeError("driver rejected a sweep line: %s" % o)
+            outs.extend(o["many"])
+        impl_outs = impl.sweep(call, blocks, zombie)
+        key = "sweep:%s%s" % (call, ":zombie" if zombie else "")
+        res.count(key, len(blocks))
+        res.count("steps", len(blocks))
+        res.count("call:" + call, len(blocks))
+        reported = 0
+        for b, im, m in zip(blocks, impl_outs, outs):
+            mo, sp = canon(m["model"]), canon(m["spec"])
+            res.case(("sweep", call, zombie, b), nontrivial=bool(b))
+            res.count("outcome:" + (im.get("exc") or im.get("kind")))
+            if (sp is not None and im != sp) or im != mo:
+                if reported >= 3:
+                    continue
+                reported += 1
+                w = default_world()
+                w[call] = ("data", b)
+                w["zombie"] = zombie
+                cj = case_json({"family": "exh-" + key, "steps": [{"call": call, "w": w}]})
+                if sp is not None and im != sp:
+                    res.disagree("spec", cj, im, mo, sp, note="exhaustive sweep of %s(): implementation differs from "
+                                 "the byte-level specification on file content %r" % (call, b))
+                else:
+                    res.disagree("model", cj, im, mo, sp, note="exhaustive sweep of %s(): implementation differs from "
+                                 "the Lean model on file content %r" % (call, b))
+        done.append("%s(): all %d file contents over %r up to length %d%s" % (call, len(blocks), alphabet, maxlen,
+                                                                                " (zombie)" if zombie else ""))
+    return done
+
+
 def corpus_cases():
     """leads and clause witnesses, run first"""
     out = []
@@ -1430,6 +1654,21 @@ def corpus_cases():
     out.append(one("cmdline", cmdline=("data", b"chrome --type=renderer ")))
     out.append(one("cmdline", cmdline=("data", b"sshd: user@pts/0\0")))
     out.append(one("cmdline", cmdline=("data", b""), zombie=True))
+    # setproctitle layouts (nginx worker / sshd session / postgres backend: NUL padding; strcpy: leftovers; the
+    # overflowed master title; a page-cut argv of an old kernel) as the kernel simulator produces them
+    for prog, style, title in (("nginx", "pad_all", b"nginx: worker process"), ("sshd", "pad_argv", b"sshd: user@pts/0"),
+                               ("postgres", "pad_all", b"postgres: 14/main: checkpointer "),
+                               ("python", "strcpy", b"celery worker -A proj"),
+                               ("nginx", "pad_argv", b"nginx: master process /usr/sbin/nginx -g daemon off;"),
+                               ("sh", "prctl", b"(sd-pam)"), ("sshd", "space_pad", b"sshd: user [priv]")):
+        arg, env, comm, _ = proctitle_memory(random.Random(0), prog, style, title)
+        for kern in ("new", "old"):
+            out.append(one("cmdline", cmdline=("data", kernel_cmdline(arg, env, kern)), comm=comm))
+    long_argv = [b"/usr/bin/java"] + [b"-Dk%d=" % i + b"v" * 90 for i in range(60)]
+    for kern in ("new", "old"):
+        out.append(one("cmdline", cmdline=("data", kernel_cmdline(render_argv(long_argv), b"", kern)), comm=b"java"))
+    out.append(one("environ", environ=("data", (b"A=1\0" + b"B=" + b"x" * 5000 + b"\0")[:PAGE])))
+    out.append(one("environ", environ=("data", b"F=() {  echo hi\n}\0=x\0N\nM=1\0F=2\0")))
     out.append(one("environ", environ=("data", b"A=1\0B\0=C=2\0A=3\0\0GARBAGE=1\0")))
     out.append(one("cwd", cwd=("target", b"/tmp/x (deleted)"), fs={b"/tmp/x (deleted)": "absent"}))
     out.append(one("cwd", cwd=("target", b"/tmp/x (deleted)"), fs={b"/tmp/x (deleted)": "file"}))
@@ -1496,6 +1735,16 @@ def features(case):
                 f.add("cmdline:title")
                 if d.endswith(b" "):
                     f.add("cmdline:title-trailing-space")
+                if b"\0" in d:
+                    f.add("cmdline:unterminated-with-nul")
+                if len(d) == PAGE:
+                    f.add("cmdline:page-cut")
+            if d.endswith(b"\0\0") and d.strip(b"\0") and b"\0" not in d.rstrip(b"\0"):
+                f.add("cmdline:padded-title")
+            elif d.endswith(b"\0") and b"\0" in d[:-1] and b" " in d.split(b"\0")[0]:
+                f.add("cmdline:title-then-leftover")
+            if len(d) > PAGE:
+                f.add("cmdline:>page")
             if b"\r" in d:
                 f.add("text:CR")
             if any(x >= 0x80 for x in d):
@@ -1520,6 +1769,12 @@ def features(case):
                 f.add("environ:leading-equals")
             if any(e.count(b"=") > 1 for e in ents):
                 f.add("environ:equals-in-value")
+            if any(b"\n" in e for e in ents):
+                f.add("environ:newline")
+            if len(d) == PAGE and tail:
+                f.add("environ:page-cut")
+            if len(d) > PAGE:
+                f.add("environ:>page")
             if b"\r" in d:
                 f.add("text:CR")
         if c in ("exe", "cwd"):
@@ -1593,11 +1848,14 @@ def compare(ctx, case, rows, res):
 
 def correspond(ctx, res):
     impl = Impl(ctx)
+    t_start = time.time()
     try:
         res.rule = ("cases = one Process object (from the constructor, from process_iter(), or from "
                     "process_iter(attrs=…)) + a list of (world, call, MODE) steps — mode = plain / oneshot / nested / "
                     "oneshot with a warm cache filled in an earlier world / after a block / as_dict (one or many attrs, "
-                    "also inside oneshot) / twice / re-fetched from process_iter(); 15 clause-directed families "
+                    "also inside oneshot) / twice / re-fetched from process_iter(); 17 clause-directed families (among "
+                    "them cmdline files produced by a kernel simulator from real setproctitle layouts and page-cut "
+                    "argument vectors, and kernel-laid-out environments cut at 4096 bytes) "
                     "(PRNG from VERIF_SEED), a corpus of clause witnesses, and exhaustive sweeps of the name() rule "
                     "around the 15-byte boundary, of the branches of exe(), and of modes x calls x objects; "
                     "non-trivial = at least one step whose outcome is not the default world's; distinct = distinct step lists")
@@ -1644,7 +1902,12 @@ def correspond(ctx, res):
                          sample={"case": case_json(case), "impl": [r[0] for r in rows]} if idx in (0, 3, 20, 21, 27, 30, 41, 47) else None)
                 compare(ctx, case, rows, res)
         res.count("steps-where-spec-is-silent", silent)
-        res.exhaustive = ("name(): all %d combinations of comm length 13..16 x {ascii, multi-byte cut mid-character, mixed, "
+        t_sw = time.time()
+        sweeps = run_sweeps(ctx, impl, res)
+        res.extra["sweeps_s"] = round(time.time() - t_sw, 1)
+        res.extra["cases_s"] = round(t_sw - t_start, 1)
+        res.exhaustive = ("; ".join(sweeps) + "; "
+                          "name(): all %d combinations of comm length 13..16 x {ascii, multi-byte cut mid-character, mixed, "
                           "invalid UTF-8} x {equal, longer, differs in last byte, shorter, unrelated} x {bare, absolute, "
                           "trailing slash} x {argv, title, empty, zombie, cmdline denied} (modes and object sources spread "
                           "over them); exe(): all %d combinations of link {ENOENT, ESRCH, EACCES, '', path, path (deleted)} x "
